@@ -1,6 +1,6 @@
 (* C11 correspondence: one harness line -> verdict.  Line forms (harness/c11/main.go):
-     (cmp a b <int>)                          gojq.Compare(a, b)
-     (ops a b <eq> <ne> <lt> <le> <gt> <ge>)  the six operators, each true|false
+     (cmp a b <int> [<eq> <ne> <lt> <le> <gt> <ge>])   gojq.Compare(a, b) and, optionally, the six operators
+                                              $a==$b, !=, <, <=, >, >= (each true|false)
      (sort A R) (unique A R) (min A R) (max A R)
      (sort_by P R) (group_by P R) (unique_by P R) (min_by P R) (max_by P R)   P = array of [value, key] pairs,
                                               the query is f(.[1]), so the builtin sees the key [k]
@@ -36,7 +36,7 @@ Definition sf_to_f64 (x : SpecFloat.spec_float) : f64 :=
    (nearest-even) binary64 of (-1)^s * M * 10^e10, +-Inf when out of range (trusted model of strconv) *)
 Definition dec_to_float (s : bool) (M : Z) (e10 : Z) : f64 :=
   if M =? 0 then B754_zero s
-  else if 0 <=? e10 then binary_normalize 53 1024 Hprec64 Hmax64 mode_NE (cond_Zopp s (M * 10 ^ e10)) 0 s
+  else if 0 <=? e10 then binary_normalize 53 1024 Hprec64 Hmax64 mode_NE (cond_Zopp s (10 ^ e10 * M)) 0 s
   else let '(q, e, l) := SpecFloat.SFdiv_core_binary 53 1024 M 0 (10 ^ (- e10)) 0 in
        sf_to_f64 (SpecFloat.binary_round_aux 53 1024 s q e l).
 
@@ -47,7 +47,16 @@ Fixpoint span_digits (l : list N) : list N * list N :=
   | c :: r => if is_digit c then let '(d, t) := span_digits r in (c :: d, t) else ([], l)
   | [] => ([], [])
   end.
-Definition digitsZ (d : list N) : option Z := match d with [] => None | _ => option_map Z.of_N (dec_aux d 0%N) end.
+(* decimal digits -> number; `10 * acc` (not `acc * 10`): binary multiplication is linear in its second
+   operand and quadratic in its first, and the universe contains 300-digit integers *)
+Fixpoint dec_fast (l : list N) (acc : N) : option N :=
+  match l with
+  | [] => Some acc
+  | c :: r => if is_digit c then dec_fast r (10 * acc + (c - 48))%N else None
+  end.
+Definition digitsZ (d : list N) : option Z := match d with [] => None | _ => option_map Z.of_N (dec_fast d 0%N) end.
+Definition parse_Zf (l : list N) : option Z :=
+  if is_minus l then option_map Z.opp (digitsZ (tl l)) else digitsZ l.
 
 (* func.go parseNumber *)
 Definition parse_number (t : list N) : option num :=
@@ -87,9 +96,9 @@ Definition parse_number (t : list N) : option num :=
 
 (* ---------- values on the wire ---------- *)
 Definition dec_numv (t : sexp) (v : list N) : option value :=
-  if atom_is "i" t then option_map (fun z => VNum (NInt z)) (parse_Z v)
-  else if atom_is "b" t then option_map (fun z => VNum (NBig z)) (parse_Z v)
-  else if atom_is "f" t then option_map (fun z => VNum (NFlt (f64_of_bits z))) (parse_Z v)
+  if atom_is "i" t then option_map (fun z => VNum (NInt z)) (parse_Zf v)
+  else if atom_is "b" t then option_map (fun z => VNum (NBig z)) (parse_Zf v)
+  else if atom_is "f" t then option_map (fun z => VNum (NFlt (f64_of_bits z))) (parse_Zf v)
   else if atom_is "l" t then
     match parse_hexs v with Some lit => option_map VNum (parse_number lit) | None => None end
   else if atom_is "s" t then option_map VStr (parse_hexs v)
@@ -277,18 +286,17 @@ Definition run_with (cmp : value -> value -> comparison) (e : sexp) : sexp :=
   | SList (k :: a :: b :: rest) =>
       if atom_is "cmp" k then
         match dec_input a, dec_input b, rest with
-        | Some x, Some y, [Atom r] =>
-            match parse_Z r with
-            | Some i => if enc_cmp (cmp x y) =? i then ok else SList [A "bad"; Atom (print_Z (enc_cmp (cmp x y)))]
-            | None => A "undecodable"
+        | Some x, Some y, Atom r :: bools =>
+            match parse_Z r, dec_bools bools with
+            | Some i, Some bs =>
+                if negb (enc_cmp (cmp x y) =? i) then SList [A "bad"; Atom (print_Z (enc_cmp (cmp x y)))]
+                else match bs with
+                     | [] => ok
+                     | _ => if bools_eqb (ops_expected cmp x y) bs then ok
+                            else SList (A "bad" :: map (fun b : bool => if b then A "true" else A "false") (ops_expected cmp x y))
+                     end
+            | _, _ => A "undecodable"
             end
-        | _, _, _ => A "undecodable"
-        end
-      else if atom_is "ops" k then
-        match dec_input a, dec_input b, dec_bools rest with
-        | Some x, Some y, Some bs =>
-            if bools_eqb (ops_expected cmp x y) bs then ok
-            else SList (A "bad" :: map (fun b : bool => if b then A "true" else A "false") (ops_expected cmp x y))
         | _, _, _ => A "undecodable"
         end
       else match rest with
@@ -333,7 +341,7 @@ Definition all_good (l : list sexp) : bool :=
 Definition spec_sexp (e : sexp) : sexp :=
   match e with
   | SList (k :: args) =>
-      let ins := if atom_is "cmp" k || atom_is "ops" k then firstn 2 args else removelast args in
+      let ins := if atom_is "cmp" k then firstn 2 args else removelast args in
       if negb (all_good ins) then ok
       else if atom_is "bsearch" k then
         match args with
